@@ -90,7 +90,6 @@ def window_pairs():
             "row_number": (["row_number"], lambda ck: ["row_number", ck]),
             "shift": (["shift", x, 1, None], lambda ck: ["shift", x, 1, None, ck]),
             "shift-1": (["shift", x, -1, lit(0)], lambda ck: ["shift", x, -1, lit(0), ck]),
-            "cum_sum": (["cum_sum", x], lambda ck: ["cum_sum", x, ck]),
             "sum": (["sum", x], lambda ck: ["sum", x, {"partition_by": ck["partition_by"]}]),
             "count": (["count_star"], lambda ck: ["count_star", {"partition_by": ck["partition_by"]}]),
         }
@@ -98,10 +97,14 @@ def window_pairs():
             lhs = [["group_by", [g]], ["arrange", o], ["mutate", [["w", bare]]], ["ungroup"]]
             rhs = [["arrange", o], ["mutate", [["w", with_ck({"partition_by": [g], "arrange": o})]]]]
             out.append((f"window:{name}", lhs, rhs))
+        # arrange= is mandatory for these: only the partition comes from the enclosing group_by
         for name in ("rank", "dense_rank"):
             lhs = [["group_by", [g]], ["arrange", o], ["mutate", [["w", [name, {"arrange": o}]]]], ["ungroup"]]
             rhs = [["arrange", o], ["mutate", [["w", [name, {"partition_by": [g], "arrange": o}]]]]]
             out.append((f"window:{name}", lhs, rhs))
+        lhs = [["group_by", [g]], ["arrange", o], ["mutate", [["w", ["cum_sum", x, {"arrange": o}]]]], ["ungroup"]]
+        rhs = [["arrange", o], ["mutate", [["w", ["cum_sum", x, {"partition_by": [g], "arrange": o}]]]]]
+        out.append(("window:cum_sum", lhs, rhs))
     return out
 
 
@@ -301,11 +304,10 @@ def judge(ex, label, h1, h2, ml, mr, ol, orr, as_set, stats, vs, world):
 
 
 def mkv(fam, label, backend, symptom, h1, h2, detail, world):
-    kinds = ">".join(T.kinds(h1)[: max(0, len(h1) - 1)][:0])
     return {"invariant": f"equivalence:{fam}", "backend": backend, "symptom": symptom, "world": world, "history": h1,
             "detail": dict(detail, rhs_history=T.py_history(h2), label=label), "params": {"label": label, "rhs": h2},
             "py": T.py_history(h1) + "   ==?==   " + T.py_history(h2), "count": 1,
-            "class": f"equivalence:{label if fam in ('window', 'map', 'union-swap', 'join-cross-filter', 'rename-inverse') else fam}|{backend}|{'>'.join(T.kinds(h1[:-1]) if False else prefix_kinds(h1, h2))}|{symptom}"}
+            "class": f"equivalence:{label if fam in ('window', 'map', 'union-swap', 'join-cross-filter', 'rename-inverse') else fam}|{backend}|{symptom}"}
 
 
 def prefix_kinds(h1, h2):
@@ -316,7 +318,10 @@ def prefix_kinds(h1, h2):
 
 
 def make_explorer(world):
-    return X.Explorer(world, alphabet=lambda st, hist: PREFIX, checks=[], depth=2, oracle="none", names="list")
+    # the documented equivalence (docs/source/examples/window_functions.md) makes the order set by the
+    # arrange verb the order of window functions without arrange= (DESIGN 4.6, deliberate exception)
+    return X.Explorer(world, alphabet=lambda st, hist: PREFIX, checks=[], depth=2, oracle="none", names="list",
+                      model_kw={"implicit_window_order": True})
 
 
 def explore_world(world, depth, tier, stats, vs):
